@@ -170,19 +170,19 @@ PROPERTIES = {
              'Bounded stand-in, NOT a proof, for everything else: the real functions are run natively on every input up to the stated bound and compared with an independent oracle; inputs beyond the bound are not covered. Real anyhow, scratch copy of the crate.',
         out=['dukebox/src/merge.rs merge_slice, class_merger_merge, merge (jar table), sided_annotation -- bounded only', 'dukebox/src/storage/*']),
     'C18': dict(
-        level='proof', verus=['desc', 'inner'], kani=[], enum=['desc', 'names', 'inner'],
+        level='proof', verus=['desc', 'inner', 'names'], kani=[], enum=['desc', 'names', 'inner'],
         technique=VERUS_TECH,
         explanation='Bounded part (never counted as proved): all strings of length <= 5 (field/return descriptors, 11 letters), <= 6 (method descriptors, 9 letters), <= 5 (names, 8 letters), plus the 255-dimension boundary and print-then-parse on a family of type structures.',
         claim='Unbounded proof, for the functions under contract only: read_field_type, FieldDescriptorSlice::parse, ReturnDescriptorSlice::parse and MethodDescriptorSlice::parse return Ok(t) exactly when the text is in the JVMS 4.3.2/4.3.3 grammar '
               '(specification functions ft_parse / field_desc / return_desc / method_desc written from the JVMS, at most 255 dimensions, class names between L and ; valid binary names) and then t is the structure the grammar assigns, Err on every other string; '
-              'write_field_type and the three write functions print exactly ty_print / ret_print / method_print of the structure; lemmas: printing a parsed descriptor reproduces the text and parsing a printed one reproduces the structure (field, return, method). '
+              'write_field_type and the three write functions print exactly ty_print / ret_print / method_print of the structure; is_valid_unqualified_name and is_valid_method_name answer true exactly for the JVMS 4.2.2 names (non-empty, none of . ; [ / -- and for methods also none of < > unless the name is <init> or <clinit>); lemmas: printing a parsed descriptor reproduces the text and parsing a printed one reproduces the structure (field, return, method). '
               'Partial: the validity predicates behind the name types (iterator adapters with closures) are outside Verus; is_valid_obj_class_name is assumed to answer the JVMS binary-name rule; they are covered by the bounded enumeration only.',
         note='Trusted: Verus+Z3; extraction rewrites (error text dropped, unsafe { f(x) } -> f(x), JavaCodePoint::from_char(c) -> c); mirrors of java_string (code point = char, JavaString = vector of code points) and std::iter::Peekable<Chars> '
              '(bodies verified, agreement with the crates assumed); string newtypes as plain wrappers; external_body is_valid_obj_class_name == sp_valid_obj. '
              'Bounded stand-in for the name predicates and as a second opinion on the parsers: native enumeration against an independent oracle (kx/enum).',
         out=['duke/src/tree/mod.rs names::is_valid_* (assumed / bounded only)', 'duke/src/tree/class.rs, field.rs, method.rs check_valid wrappers', 'unicode names beyond the bounded alphabet', 'signatures (check_valid accepts everything)']),
     'C16': dict(
-        level='proof', verus=['rlabels', 'cwrite', 'wjump', 'wpool', 'wencode', 'wattrs', 'wtypes', 'wannot', 'wput', 'wfrom', 'warms', 'rskip', 'rbranch', 'rscan', 'rpool', 'rdecode', 'rframes', 'rattrs', 'rtables', 'raccept', 'rtree', 'rarms', 'rtypes', 'rpoolres', 'rannot', 'aaccept', 'abuild', 'adiff', 'scope', 'c20len', 'desc', 'inner', 'mergeord', 'tinyesc'], kani=[], enum=['desc', 'mapdesc', 'cls', 'enigma', 'nestio', 'tinyio'],
+        level='proof', verus=['rlabels', 'cwrite', 'wjump', 'wpool', 'wencode', 'wattrs', 'wtypes', 'wannot', 'wput', 'wfrom', 'warms', 'rskip', 'rbranch', 'rscan', 'rpool', 'rdecode', 'rframes', 'rattrs', 'rtables', 'raccept', 'rtree', 'rarms', 'rtypes', 'rpoolres', 'rannot', 'aaccept', 'abuild', 'adiff', 'scope', 'c20len', 'desc', 'inner', 'names', 'mergeord', 'tinyesc'], kani=[], enum=['desc', 'mapdesc', 'cls', 'enigma', 'nestio', 'tinyio'],
         technique=VERUS_TECH + ': implicit safety obligations (overflow, index, unwrap, unreachable, termination)',
         claim='Unbounded proof of panic-freedom and termination for every function extracted for the other properties (Verus generates no-overflow, in-bounds, no-failing-unwrap, unreachable!() unreachable, decreases obligations for each). '
               'This includes the descriptor parsers (read_field_type, the three parse functions, get_arguments_size) on arbitrary text. Partial: the line-oriented text parsers built on BufRead are outside the verifier and not covered.',
